@@ -47,10 +47,10 @@ def build_est(r, cls, d, fusion_ok=True):
 
 def run(ctx):
     cov = ctx.cov
-    N = ctx.scale(260, 6000)
+    N = ctx.scale(900, 9000)
     nmax = ctx.scale(24, 120)
     classes = specs.ELEM + ["FusionART"]
-    lines, expect = [], []
+    lines, expect, refill = [], [], []
     Nflag = ctx.scale(120, 2500)
     for i in range(N + Nflag):
         r = gen.rng_for(ctx.seed, "C01", i)
@@ -97,8 +97,24 @@ def run(ctx):
         frames = []
         orig_step = m.__dict__["step_fit"]
 
-        def framed(x, *a, _o=orig_step, _m=m, **kw):
+        fullM = []
+
+        def framed(x, *a, _o=orig_step, _m=m, _cls=cls, **kw):
             before = [np.array(w, dtype=float).copy() for w in _m.W]
+            # match values of EVERY category for this sample, from the class's own public kernels (unwrapped, so the
+            # recorder does not see the calls) on the state before the step: used only when the estimator's search
+            # stopped before a category the rule still has to judge
+            fm = None
+            if _cls != "FusionART":
+                try:
+                    with np.errstate(all="ignore"):
+                        fm = []
+                        for wb in _m.W:
+                            _, ch_ = type(_m).category_choice(_m, x, wb, params=_m.params)
+                            fm.append([float(type(_m).match_criterion(_m, x, wb, params=_m.params, cache=ch_)[0])])
+                except Exception:
+                    fm = None
+            fullM.append(fm)
             c = _o(x, *a, **kw)
             after = [np.array(w, dtype=float).copy() for w in _m.W]
             frames.append((before, after, int(c), np.array(x, dtype=float).copy()))
@@ -202,15 +218,37 @@ def run(ctx):
                 vec_f(T), ms, ",".join(map(str, veto)))
             lines.append(line)
             expect.append((i, si, st, cls, mode, has_reset, spec, X, eps, vt))
+            filled = None
+            if si < len(fullM) and fullM[si] is not None and len(fullM[si]) == st.ncat and any(mv is None for mv in M):
+                ms2 = ",".join(":".join(f2hex(v) for v in (mv if mv is not None else fullM[si][c])) for c, mv in enumerate(M))
+                filled = "search %s %s %s %s %s %s %s" % (
+                    mode, ",".join(map(str, inv)), ",".join(f2hex(v) for v in rho), f2hex(eps),
+                    vec_f(T), ms2, ",".join(map(str, veto)))
+            refill.append(filled)
         cov.case(key, nontrivial)
         cov.traces += 1
         if i < 3:
             cov.sample({"class": cls, "spec": spec, "mode": mode, "eps": eps, "n": n, "reset": has_reset,
                         "labels": [s.ret for s in rec.steps]})
     outs = run_driver(lines)
-    for line, out, (i, si, st, cls, mode, has_reset, spec, X, eps, vt) in zip(lines, outs, expect):
+    # second pass for steps the model could not follow because the estimator never evaluated a category the rule
+    # still had to judge: the missing match values come from the estimator's own public kernels
+    again = [k for k, out in enumerate(outs) if out == "unrecorded-match" and refill[k] is not None]
+    outs2 = dict(zip(again, run_driver([refill[k] for k in again]))) if again else {}
+    for k_, (line, out, (i, si, st, cls, mode, has_reset, spec, X, eps, vt)) in enumerate(zip(lines, outs, expect)):
         rep = {"case": i, "step": si, "class": cls, "spec": spec, "mode": mode, "eps": eps, "X": X,
                "veto": vt if has_reset else None, "line": line, "model": out}
+        if k_ in outs2 and outs2[k_].startswith("w="):
+            w2 = parse_kv(outs2[k_])["w"]
+            exp_w = "-" if st.ret == st.ncat else str(st.ret)
+            cov.hit("search-stopped-early:rule-evaluated-with-kernel-match-values")
+            if w2 != exp_w:
+                ctx.issue("violation", f"{cls}:search-outcome-differs-from-rule",
+                          f"case {i} step {si}: the estimator returned label {st.ret} ({st.ncat} categories) after visiting only "
+                          f"{[c for (c, _, _) in st.resets] or len(st.Mseq)} candidates; the search rule applied to the recorded activations / reset "
+                          f"answers and the match values of the estimator's own match_criterion for the categories it never "
+                          f"tested gives {w2} (mode {mode}, eps {eps})", dict(rep, line=refill[k_], model=outs2[k_]))
+                continue
         if not out.startswith("w="):
             ctx.issue("diff", f"search:{cls}", f"model could not follow the recorded step: {out}", rep)
             continue
